@@ -13,6 +13,7 @@ import (
 	"encoding/binary"
 	"fmt"
 	"os"
+	"runtime"
 	"sort"
 	"strconv"
 	"strings"
@@ -577,7 +578,18 @@ func runC09(t *testing.T, c c09Case, st *drv.Stats) (fail *drv.Failure) {
 				if strings.Contains(msg, "deadlock") && fail != nil {
 					return // the bubble could not exit because of the reported deadlock
 				}
-				fail = drv.Failf("panic", drv_firstLine(msg), "panic: %v\n%s", p, stackTrim())
+				extra := ""
+				if strings.Contains(msg, "blocked goroutines remain") {
+					// which goroutines are still blocked inside the bubble
+					buf := make([]byte, 1<<20)
+					buf = buf[:runtime.Stack(buf, true)]
+					for _, g := range strings.Split(string(buf), "\n\n") {
+						if strings.Contains(g, "synctest bubble") && strings.Contains(g, "durable") {
+							extra += "\n\n" + g
+						}
+					}
+				}
+				fail = drv.Failf("panic", drv_firstLine(msg), "panic: %v\n%s%s", p, stackTrim(), extra)
 			}
 		}()
 		synctest.Test(t, func(t *testing.T) {
